@@ -17,14 +17,14 @@ TOL = 1e-9
 
 META = {
     "rule": "(a) every single-edge configuration of the C01 alphabets x every information matrix of the Omega alphabet: error and chi2 vs the reference model; "
-    "(b) every multiset of 1..3 (thorough 4) edges from a 12-edge mixed-type alphabet: Graph.calc_chi2 = sum of reference chi2; (c) consistency: exactly-agreeing "
+    "(b) every multiset of 1..3 (thorough 4) edges from a 12-edge mixed-type alphabet x fixed-flag pattern {none, all, alternating}: Graph.calc_chi2 = sum of reference chi2 (fixed flags must not matter); (c) consistency: exactly-agreeing "
     "measurement gives chi2 ~ 0, any physically different alphabet measurement gives chi2 > 0 for SPD Omega; (d) linearity in Omega over Omega^2 x {0.5,2,1e3}^2; "
     "(e) exact rational tier on Hurwitz x dyadic members. non-trivial = error vector has a component with |e| > 1e-9 and the configuration has a non-identity rotation",
     "assumptions": [
         "alphabet members only",
         "reference vf/ref/edges.py, vf/ref/geom.py trusted; SE(3) rotational error accepted up to one global sign per evaluation; SE(2) angular error compared modulo 2 pi and required in [-pi, pi]",
     ],
-    "required_classes": ["single:odo:SE2", "single:odo:SE3", "single:odo:R2", "single:odo:R3", "single:lm:SE2", "single:lm:SE3", "single:lm:R2", "single:lm:R3", "graph", "consistency", "linearity", "exact", "omega:spd", "offset_rotated", "w_negative"],
+    "required_classes": ["single:odo:SE2", "single:odo:SE3", "single:odo:R2", "single:odo:R3", "single:lm:SE2", "single:lm:SE3", "single:lm:R2", "single:lm:R3", "graph", "graph:fixed_vertices", "consistency", "linearity", "exact", "omega:spd", "offset_rotated", "w_negative"],
     "bounds": {"quick": "C01 quick configuration sets x 3 information matrices; edge multisets of size <= 3", "thorough": "C01 thorough sets x 8 information matrices; multisets <= 4"},
 }
 
@@ -68,7 +68,8 @@ def run_chunk(chunk, tier, seed):
         m = 3 if tier == "quick" else 4
         for k in range(1, m + 1):
             for ms in itertools.combinations_with_replacement(range(12), k):
-                _do(acc, {"t": "graph", "edges": list(ms), "seed": seed})
+                for fx in ("none", "all", "alt"):
+                    _do(acc, {"t": "graph", "edges": list(ms), "seed": seed, "fixed": fx})
     elif typ == "consistency":
         kind = chunk[1]
         ps = A.poses(kind, tier, seed)
@@ -228,9 +229,22 @@ def _eval_inner(case):
                 msgs.append("chi2 with Omega=%s is %.17g but e^T Omega e of the edge's own error is %.17g" % (name, c2, own))
             if name != "ill" and c2 < -1e-12 * onorm * en2:
                 msgs.append("chi2 %.3g negative for PSD information %s" % (c2, name))
+            # the measurement model does not know about fixed flags: same error / chi2 whatever is marked fixed
+            for flags in ((True, True), (True, False), (False, True)):
+                for v, f in zip(e.vertices, flags):
+                    v.fixed = f
+                c2f = float(e.calc_chi2())
+                nops += 1
+                if not (c2f == c2 or abs(c2f - c2) <= 1e-15 * abs(c2)):
+                    msgs.append("chi2 with Omega=%s changes from %.17g to %.17g when the vertices are marked fixed=%r" % (name, c2, c2f, flags))
+            for v in e.vertices:
+                v.fixed = False
         return msgs, ratio, nontriv, nops, classes
     if t == "graph":
         g, edges, specs = _graph_alphabet(case["seed"], case["edges"])
+        fx = case.get("fixed", "none")
+        for k, v in enumerate(I.graph_vertices(g)):
+            v.fixed = (fx == "all") or (fx == "alt" and k % 2 == 0)
         mag = 0.0
         sums = [0.0]
         for (et, kind, d) in specs:
@@ -252,7 +266,7 @@ def _eval_inner(case):
             msgs.append("Graph.calc_chi2 = %.17g but the sum of the reference edge chi2 over the multiset %r is %.17g" % (got, case["edges"], tot))
         if abs(got - own) > 1e-12 * (1.0 + mag):
             msgs.append("Graph.calc_chi2 = %.17g differs from the sum of its edges' calc_chi2 %.17g" % (got, own))
-        return msgs, r, len(case["edges"]) > 1, 1 + len(edges), (["graph:parallel"] if len(set(case["edges"])) < len(case["edges"]) else [])
+        return msgs, r, len(case["edges"]) > 1, 1 + len(edges), (["graph:parallel"] if len(set(case["edges"])) < len(case["edges"]) else []) + (["graph:fixed_vertices"] if fx != "none" else [])
     if t == "consistency":
         kind = case["kind"]
         p1, p2 = _stored(kind, case["p1"]), _stored(kind, case["p2"])
@@ -383,5 +397,9 @@ def _graph_alphabet(seed, which):
         else:
             edges.append(I.EdgeLandmark([a, b], np.array(d["om"], dtype=float), I.mk_pose(pk, d["z"]), offset=I.mk_pose(kind, d["off"])))
             specs.append((et, kind, {"p1": V[a][1], "off": d["off"], "l": V[b][1], "z": d["z"], "om": d["om"]}))
+    # the edge objects arrive bound to OTHER vertex objects with the same ids (as after use in an earlier graph):
+    # the graph's chi2 must be that of ITS vertices
+    for ed in edges:
+        ed.vertices = [I.Vertex(i, I.mk_pose(V[i][0], [x + 1.0 for x in V[i][1][: G.DIM[V[i][0]]]] + V[i][1][G.DIM[V[i][0]] :])) for i in ed.vertex_ids]
     g = I.Graph(edges, list(verts.values()))
     return g, edges, specs
